@@ -28,6 +28,27 @@ fn report(out: &mut Vec<Value>, n: usize, form: &str, arena: &Arena<i64>, ret: N
     }));
 }
 
+// payloads that are themselves ids (of the arena `docs`, whose node i carries the label i)
+fn report_n(out: &mut Vec<Value>, n: usize, form: &str, arena: &Arena<NodeId>, docs: &Arena<i64>, ret: NodeId, root: Option<NodeId>) {
+    let label = |id: NodeId| *docs[*arena[id].get()].get();
+    let mut kids = serde_json::Map::new();
+    for node in arena.iter() {
+        if node.is_removed() {
+            continue;
+        }
+        let id = arena.get_node_id(node).unwrap();
+        let ks: Vec<i64> = id.children(arena).take(10_000).map(label).collect();
+        kids.insert(label(id).to_string(), json!(ks));
+    }
+    let log: Vec<i64> = LOG.with(|l| l.borrow().clone());
+    out.push(json!({
+        "n": n, "form": form, "count": arena.count(), "kids": kids, "log": log,
+        "ret_payload": label(ret),
+        "ret_is_given_root": root.map(|r| r == ret),
+        "ret_parent_none": arena[ret].parent().is_none(),
+    }));
+}
+
 // a payload with drop glue: every label counts its destructor runs
 use std::sync::atomic::{AtomicUsize, Ordering};
 static DROPS: [AtomicUsize; 256] = [const { AtomicUsize::new(0) }; 256];
